@@ -252,15 +252,26 @@ fn run_history(cx: &mut Ctx, docs: &[Value], hist: &[Value]) -> Vec<Value> {
         }
     }
     pump_quiet(cx, Duration::from_millis(700), Duration::from_secs(20));
-    let st = probe(cx, &uris).unwrap_or_default();
     let f = |v: &Value| match v {
         Value::String(s) => json!(id_of(s)),
         _ => Value::Null,
     };
-    let obs: Vec<Value> = (0..uris.len()).map(|i| {
-        let p = st.get(i).cloned().unwrap_or(Value::Null);
-        json!({"open": f(&p["open"]), "analysed": f(&p["analysed"])})
-    }).collect();
+    // "once everything settles": the end of the reload's version loop is not observable, so an observation
+    // that does not yet match is re-taken for up to 20 s (a loaded machine can delay the reload task for
+    // seconds); only a state that stays wrong is reported
+    let t_obs = Instant::now();
+    let mut obs: Vec<Value>;
+    loop {
+        let st = probe(cx, &uris).unwrap_or_default();
+        obs = (0..uris.len()).map(|i| {
+            let p = st.get(i).cloned().unwrap_or(Value::Null);
+            json!({"open": f(&p["open"]), "analysed": f(&p["analysed"])})
+        }).collect();
+        if oracle(docs, hist, &obs).is_empty() || t_obs.elapsed() > Duration::from_secs(20) {
+            break;
+        }
+        pump_for(cx, Duration::from_millis(500));
+    }
     // leave nothing open behind (the next history uses other uris)
     for u in &uris {
         cx.srv.send_notif("textDocument/didClose", json!({"textDocument": {"uri": u}}));
